@@ -4,6 +4,7 @@ import (
 	"errors"
 	"fmt"
 	"math/rand"
+	"net/url"
 	"os"
 	"sort"
 	"strings"
@@ -224,6 +225,26 @@ func tsTracks(rng *rand.Rand, video, audio bool, base int64) []*origin.Track {
 }
 
 // runC11LL: Low-Latency scripted history (preload hints, delta-update directive).
+// sameQueryParams: every parameter of want is present, with its value, in got (order and encoding aside).
+func sameQueryParams(got, want string) bool {
+	g, err1 := url.ParseQuery(got)
+	w, err2 := url.ParseQuery(want)
+	if err1 != nil || err2 != nil {
+		return false
+	}
+	for k, vs := range w {
+		if len(g[k]) != len(vs) {
+			return false
+		}
+		for i := range vs {
+			if g[k][i] != vs[i] {
+				return false
+			}
+		}
+	}
+	return true
+}
+
 func runC11LL(seed int64, idx int) *c11Result {
 	res := &c11Result{obs: map[string]int{}}
 	fail := func(key, f string, a ...any) {
@@ -278,15 +299,25 @@ func runC11LL(seed int64, idx int) *c11Result {
 	}
 	site.Playlists[plURL] = pl
 	srv := &origin.Server{H: site.Handler()}
-	run := clirun.New(plURL, srv.Client())
+	// the playlist URL itself may carry a query (access token): every reload must keep it
+	ownQuery := []string{"", "", "token=abc", "u=1&token=a%20b"}[(idx/6)%4]
+	entry := plURL
+	if ownQuery != "" {
+		entry += "?" + ownQuery
+	}
+	run := clirun.New(entry, srv.Client())
 	if err := run.C.Start(); err != nil {
 		fail("harness", "start: %v", err)
 		return res
 	}
-	if !run.WaitResult(40 * time.Second) {
+	if ended, wedged, census := run.WaitEndOrWedge(func() int { return srv.Count() + run.Delivered() }, 100, 60*time.Second); !ended {
 		run.C.Close()
 		run.WaitResult(5 * time.Second)
-		res.obs["inconclusive_no_end"]++
+		if wedged {
+			fail("ll-wedged", "the client neither ended nor moved for 10 s and all its goroutines are parked: %s", strings.Join(census, " | "))
+		} else {
+			res.obs["inconclusive_no_end"]++
+		}
 		return res
 	}
 	if run.WaitErr == nil || errors.Is(run.WaitErr, gohlslib.ErrClientEOS) {
@@ -310,6 +341,12 @@ func runC11LL(seed int64, idx int) *c11Result {
 			}
 			if first && hasSkip {
 				fail("ll-skip-first", "the first playlist request already carries _HLS_skip (query %q)", q)
+			}
+			if ownQuery != "" {
+				res.obs["ll_reloads_of_query_carrying_url"]++
+				if !sameQueryParams(q, ownQuery) {
+					fail("ll-query-lost", "the playlist URL is %s but a reload asked for query %q", entry, q)
+				}
 			}
 		case site.Kinds[base] == "part":
 			seq += "H"
